@@ -66,6 +66,7 @@ func c13RawResponses(n *memnet.Net) {
 		raw := "HTTP/1.1 200 OK\r\nContent-Length: 21\r\nX-Slow: yes\r\n\r\nslow-part1|slow-part2"
 		n.Raw["rslow"] = &memnet.Response{Status: 200, Raw: []byte(raw), Gaps: []memnet.Gap{{Offset: len(raw) - 10, Wait: vTargetTO + 800*time.Millisecond}}}
 	}
+	n.Raw["rsse"] = &memnet.Response{Raw: []byte("HTTP/1.1 200 OK\r\nContent-Type: text/event-stream\r\nX-Target: sse\r\n\r\ndata: one\n\ndata: two\n\n"), CloseAfter: true}
 	n.Raw["rhints"] = &memnet.Response{Raw: []byte("HTTP/1.1 103 Early Hints\r\nLink: </style.css>; rel=preload\r\n\r\nHTTP/1.1 404 Not Found\r\nContent-Length: 6\r\nX-After-Hints: yes\r\n\r\nnf-103")}
 }
 
@@ -261,6 +262,66 @@ func c13Concurrent(kind string) func(w *World) []Violation {
 		}
 		return vs
 	}
+}
+
+// c13AfterEventStream: a buffering service serves an event stream (which bypasses the buffer); afterwards two buffered
+// exchanges overlap in time: each client gets exactly its own target response.
+func c13AfterEventStream(w *World) []Violation {
+	var vs []Violation
+	add := func(sig, d string) { vs = append(vs, Violation{"C13", sig, d}) }
+	const host = "m5.example.com"
+	c13seq++
+	o := w.Do(ReqSpec{ID: fmt.Sprintf("sse-%d", c13seq), Host: host, Path: "/events", Plan: "r=rsse"})
+	if o.Status != 200 || !strings.Contains(string(o.Body), "data: two") {
+		add("event-stream-broken", o.Summary()+" "+firstN(o.Body, 60))
+	}
+	for round := 0; round < 4; round++ {
+		// one slow buffered response (its body completes late) with a growing number of quick buffered exchanges
+		// (request bodies and responses) started while it is in progress
+		var wg vsync.WaitGroup
+		var slow *ReqObs
+		nfast := round + 1
+		fast := make([]*ReqObs, nfast)
+		c13seq++
+		k := c13seq
+		wg.Add(1 + nfast)
+		vsched.GoTagged("client", func() {
+			defer wg.Done()
+			slow = w.Do(ReqSpec{ID: fmt.Sprintf("slow-%d", k), Host: host, Path: "/slow", Plan: "r=rslow"})
+		})
+		time.Sleep(100 * time.Millisecond)
+		for i := 0; i < nfast; i++ {
+			i := i
+			vsched.GoTagged("client", func() {
+				defer wg.Done()
+				fast[i] = w.Do(ReqSpec{ID: fmt.Sprintf("fast-%d-%d", k, i), Method: "POST", Host: host, Path: "/fast", Body: []byte(fmt.Sprintf("fast-request-body-%d", i)), Plan: "r=r200"})
+			})
+		}
+		wg.Wait()
+		if slow == nil || slow.Status != 200 || string(slow.Body) != "slow-part1|slow-part2" {
+			s := "none"
+			if slow != nil {
+				s = slow.Summary() + " body " + firstN(slow.Body, 60)
+			}
+			add("response-body-changed after-event-stream", "slow buffered response overlapping others: "+s)
+		}
+		for i, f := range fast {
+			if f == nil || f.Status != 200 || string(f.Body) != "hello" {
+				s := "none"
+				if f != nil {
+					s = f.Summary() + " body " + firstN(f.Body, 60)
+				}
+				add("response-body-changed after-event-stream", "quick buffered response overlapping others: "+s)
+				continue
+			}
+			for _, e := range w.Net.Events() {
+				if e.Kind == "req" && e.ReqID == f.ID && string(e.Body) != fmt.Sprintf("fast-request-body-%d", i) {
+					add("request-body-changed after-event-stream", fmt.Sprintf("the target saw %q", firstN(e.Body, 60)))
+				}
+			}
+		}
+	}
+	return vs
 }
 
 // c13SlowBodies: the target timeout bounds the wait for the target's response header, not the transfer of bodies: a
@@ -650,6 +711,7 @@ func c13Cases(tier string) []ECase {
 		cases = append(cases, ECase{Name: "concurrent " + k, Class: "concurrent " + k, Run: c13Concurrent(k)})
 	}
 	cases = append(cases, ECase{Name: "rollout group without a healthy target", Class: "rollout-group-unhealthy", Run: c13RolloutGroupUnhealthy})
+	cases = append(cases, ECase{Name: "overlapping buffered exchanges after an event stream", Class: "after-event-stream", Run: c13AfterEventStream})
 	cases = append(cases, ECase{Name: "bodies slower than the target timeout", Class: "slow-bodies", Run: c13SlowBodies})
 	cases = append(cases, ECase{Name: "redeploy onto the same target with forwarding / stripping flipped", Class: "redeploy-same-target", Run: c13RedeploySameTarget})
 	for _, in := range ins {
